@@ -33,6 +33,8 @@ type PrCase struct {
 	Window   int    `json:"window"`   // s
 	Init     []int  `json:"init"`     // script of each backend at start-up
 	Ops      []PrOp `json:"ops"`
+	Pool     bool   `json:"pool,omitempty"`  // websocket pool enabled (Stop also shuts the pool down)
+	Stop0    bool   `json:"stop0,omitempty"` // Stop is called right after NewLoadBalancer returned, before the checker goroutine has run
 }
 
 type probeTable struct {
@@ -110,10 +112,41 @@ func runPrCase(c PrCase) (string, map[string]int) {
 	}
 	cfg.HealthChecks.Active = config.ActiveHealthCheckConfig{Enabled: true, Interval: c.Interval, Timeout: c.Timeout, Path: "/hc"}
 	cfg.HealthChecks.Passive = config.PassiveHealthCheckConfig{Enabled: false, UnhealthyThreshold: 1, UnhealthyTimeout: c.Window}
+	if c.Pool {
+		cfg.LoadBalancer.WebSocketPool = config.WebSocketPoolConfig{Enabled: true, MaxIdle: 2, MaxActive: 10, IdleTimeoutSeconds: 30}
+	}
 	t0 := time.Now().UnixNano()
 	lb, err := lbp.NewLoadBalancer(cfg)
 	if err != nil {
 		panic(err)
+	}
+	if c.Stop0 {
+		// Stop on the constructing goroutine, before the checker goroutine has had a chance to run: the initial check then
+		// meets a balancer that is already shutting down.  Every backend is scripted healthy, so nothing else is observable.
+		lb.Stop()
+		lb.Stop()
+		synctest.Wait()
+		time.Sleep(time.Duration(3*c.Interval)*time.Second + 1)
+		synctest.Wait()
+		late := 0
+		prTable.mu.Lock()
+		for _, rec := range prTable.log[logStart:] {
+			var cc, bb int
+			fmt.Sscanf(rec.host, "c%db%d.probe", &cc, &bb)
+			if rec.at > t0 && cc == tag {
+				late++
+			}
+		}
+		prTable.mu.Unlock()
+		var ops0, obs0 []string
+		for i := 1; i <= c.N; i++ {
+			ops0 = append(ops0, fmt.Sprintf("PSet %d 0", i))
+			obs0 = append(obs0, "[]")
+		}
+		ops0 = append(ops0, "PStop", "PStop")
+		obs0 = append(obs0, "[]", "[]")
+		stats["stop0"]++
+		return fmt.Sprintf("mkPrCase %d %s %s %s %s %d", c.N, Z(int64(c.Window)*int64(time.Second)), Z(int64(c.Timeout)*int64(time.Second)), List(ops0), List(obs0), late), stats
 	}
 	var hits []int
 	for i, b := range lb.VerifBackends() {
@@ -302,6 +335,14 @@ func genPrCase(g *Rng) PrCase {
 	}
 	if !stopped && g.Chance(70) {
 		c.Ops = append(c.Ops, PrOp{K: "stop"})
+	}
+	c.Pool = g.Chance(35)
+	if g.Chance(8) {
+		c.Stop0 = true
+		c.Ops = nil
+		for i := range c.Init {
+			c.Init[i] = 0
+		}
 	}
 	return c
 }
